@@ -8,6 +8,8 @@
 (*       g1 over any non-empty subset of the inputs, g2 over any non-empty *)
 (*       subset of inputs and g1 (4704 circuits).                          *)
 (*   W : one wide gate (fan-in 3..6) of each multi-input type.             *)
+(* Families take a dummy argument so that TLC does not evaluate all of them  *)
+(* eagerly at start-up (zero-arity constant definitions are precomputed).   *)
 (***************************************************************************)
 EXTENDS CGTypes
 
@@ -28,7 +30,7 @@ G1Circ(t, S) ==
       fi    |-> [q \in 1..n |-> IF q = n THEN [j \in 1..Len(ops) |-> pos(ops[j])]
                                 ELSE IF sel[q] = 8 THEN <<pos(1)>> ELSE <<>>],
       bbs |-> <<>>, acyc |-> TRUE]
-G1 == {G1Circ(t, S) : t \in Gates1, S \in {{p} : p \in 1..8}}
+G1(z) == {G1Circ(t, S) : t \in Gates1, S \in {{p} : p \in 1..8}}
       \cup {G1Circ(t, S) : t \in GatesN, S \in {T \in SUBSET (1..8) : Cardinality(T) \in 1..4}}
 
 ArityOK(t, F) == F # {} /\ (t \in Gates1 => Cardinality(F) = 1)
@@ -40,8 +42,8 @@ G2Circ(t1, F1, t2, F2) ==
    out   |-> <<FALSE, FALSE, FALSE, ~(4 \in F2), TRUE>>,
    fi    |-> << <<>>, <<>>, <<>>, SelectSeq(Ord4, LAMBDA p : p \in F1), SelectSeq(Ord4, LAMBDA p : p \in F2) >>,
    bbs |-> <<>>, acyc |-> TRUE]
-G2 == {G2Circ(t1, F1, t2, F2) : t1 \in Gates, F1 \in SUBSET (1..3), t2 \in Gates, F2 \in SUBSET (1..4)}
-G2ok == {c \in G2 : ArityOK(c.ty[4], Range(c.fi[4])) /\ ArityOK(c.ty[5], Range(c.fi[5]))}
+G2(z) == {G2Circ(t1, F1, t2, F2) : t1 \in Gates, F1 \in SUBSET (1..3), t2 \in Gates, F2 \in SUBSET (1..4)}
+G2ok(z) == {c \in G2(z) : ArityOK(c.ty[4], Range(c.fi[4])) /\ ArityOK(c.ty[5], Range(c.fi[5]))}
 
 WCirc(t, m) ==
   [name |-> "wfam", n |-> m + 1,
@@ -50,7 +52,7 @@ WCirc(t, m) ==
    out   |-> [q \in 1..(m+1) |-> q = m + 1],
    fi    |-> [q \in 1..(m+1) |-> IF q = m + 1 THEN [j \in 1..m |-> j] ELSE <<>>],
    bbs |-> <<>>, acyc |-> TRUE]
-W == {WCirc(t, m) : t \in GatesN, m \in 3..6}
+W(z) == {WCirc(t, m) : t \in GatesN, m \in 3..6}
 
 (* graph shapes: all DAGs on n nodes whose labelling is topological (every DAG shape up to isomorphism) and
    all digraphs without self-loops on 4 labelled nodes (cyclic ones included; acyc is recomputed by the harness) *)
@@ -63,11 +65,11 @@ GraphCirc(n, E) ==
    out |-> [q \in 1..n |-> ~\E e \in E : e[1] = q],
    fi  |-> [q \in 1..n |-> SelectSeq(OrdN(n), LAMBDA p : <<p, q>> \in E)],
    bbs |-> <<>>, acyc |-> TRUE]
-DAG4 == {GraphCirc(4, E) : E \in SUBSET PairsLT(4)}
-DAG5 == {GraphCirc(5, E) : E \in SUBSET PairsLT(5)}
-DAG6 == {GraphCirc(6, E) : E \in SUBSET PairsLT(6)}
-DG3  == {GraphCirc(3, E) : E \in SUBSET PairsNE(3)}
-DG4  == {GraphCirc(4, E) : E \in SUBSET PairsNE(4)}
+DAG4(z) == {GraphCirc(4, E) : E \in SUBSET PairsLT(4)}
+DAG5(z) == {GraphCirc(5, E) : E \in SUBSET PairsLT(5)}
+DAG6(z) == {GraphCirc(6, E) : E \in SUBSET PairsLT(6)}
+DG3(z) == {GraphCirc(3, E) : E \in SUBSET PairsNE(3)}
+DG4(z) == {GraphCirc(4, E) : E \in SUBSET PairsNE(4)}
 (* ill-formed and well-formed two-node graphs for lint: every pair of names from {a, b, i.d, i.q}, every pair of
    type attributes (supported, missing, unsupported), every edge set incl. self-loops, with/without instance i *)
 LTypes == Supported \cup {NoType, "foo"}
@@ -77,7 +79,7 @@ LintCirc(nm, t1, t2, E, o1, reg) ==
   [name |-> "lfam", n |-> 2, names |-> nm, ty |-> <<t1, t2>>, out |-> <<o1, FALSE>>,
    fi |-> << SelectSeq(<<1,2>>, LAMBDA p : <<p,1>> \in E), SelectSeq(<<1,2>>, LAMBDA p : <<p,2>> \in E) >>,
    bbs |-> reg, acyc |-> FALSE]
-L2 == {LintCirc(nm, t1, t2, E, o1, reg) : nm \in LPairs, t1 \in LTypes, t2 \in LTypes,
+L2(z) == {LintCirc(nm, t1, t2, E, o1, reg) : nm \in LPairs, t1 \in LTypes, t2 \in LTypes,
                                           E \in SUBSET ((1..2) \X (1..2)), o1 \in BOOLEAN, reg \in LRegs}
 NoX(F) == {c \in F : "x" \notin Range(c.ty)}
 =============================================================================
